@@ -11,8 +11,40 @@ import (
 )
 
 type Locker = sync.Locker
-type Pool = sync.Pool
 type Map = sync.Map
+
+// Pool is a deterministic replacement of sync.Pool: a LIFO free list (Get returns the most
+// recently Put object). sync.Pool's reuse depends on the processor and the garbage collector;
+// LIFO reuse is one of its legal behaviours and the one that makes aliasing of a released
+// object show.
+type Pool struct {
+	New  func() any
+	free []any
+	real sync.Mutex
+}
+
+func (p *Pool) Get() any {
+	p.real.Lock()
+	defer p.real.Unlock()
+	if n := len(p.free); n > 0 {
+		x := p.free[n-1]
+		p.free = p.free[:n-1]
+		return x
+	}
+	if p.New != nil {
+		return p.New()
+	}
+	return nil
+}
+
+func (p *Pool) Put(x any) {
+	if x == nil {
+		return
+	}
+	p.real.Lock()
+	p.free = append(p.free, x)
+	p.real.Unlock()
+}
 
 type Mutex struct {
 	real   sync.Mutex
